@@ -84,7 +84,9 @@ void harness(void)
   if (c != 0) VF_ASSERT(r == 0 && e == EINVAL, "C11: fixed-cost method rejects every count but 0 with EINVAL");
   else VF_ASSERT(r != 0, "C11: fixed-cost method accepts count 0");
   if (r) VF_WITNESS("cost checked");
+#ifndef COUNT_MAX
   if (!r) VF_WITNESS("count rejected");
+#endif
 #elif defined M_bsdicrypt
   VF_ASSERT(r != 0, "C11: bsdicrypt accepts every count");
   if (r) {
@@ -176,6 +178,21 @@ void harness(void)
   }
 #endif
 
+#ifdef STD_SALT_CHARS
+  /* C12: with 16+ random bytes and the documented buffer the salt has at least the
+     method's standard size: count the trailing run of salt characters (a final
+     '$' terminator, where the method emits one, is skipped) */
+  if (r) {
+    size_t n = 0;
+    for (size_t i = 0; i < OSZ; i++) if (out[i] != 0 && n == i) n = i + 1;
+    size_t end = n;
+    if (end > 0 && out[end - 1] == '$') end--;
+    size_t run = 0;
+    for (size_t k = 0; k < STD_SALT_CHARS + 2; k++)
+      if (run == k && end > k && (a64((unsigned char)out[end - 1 - k]) >= 0)) run = k + 1;
+    VF_ASSERT(run >= STD_SALT_CHARS, "C12: salt has at least the method's standard size");
+  }
+#endif
 #ifdef TWO_RB
   /* C12: the salt is an injective encoding of the consumed random bytes */
   if (r) {
